@@ -569,6 +569,32 @@ impl<T> Session<T> {
     }
 }
 
+/// Verification hooks (compiled only with `--cfg nomt_verif`): what the session's overlay chain
+/// answers, so that the harness can hand the same overlay items to the Lean mirror of the
+/// overlay-aware seek.
+#[cfg(nomt_verif)]
+#[allow(missing_docs)]
+impl<T> Session<T> {
+    /// `LiveOverlay::value_iter(start, end)` of the session's overlay, collected.
+    pub fn verif_overlay_value_iter(
+        &self,
+        start: KeyPath,
+        end: Option<KeyPath>,
+    ) -> Vec<(KeyPath, Option<Vec<u8>>)> {
+        self.overlay
+            .value_iter(start, end)
+            .map(|(k, c)| (k, c.as_option().map(|v| v.to_vec())))
+            .collect()
+    }
+
+    /// `LiveOverlay::value(key)` of the session's overlay.
+    pub fn verif_overlay_value(&self, key: &KeyPath) -> Option<Option<Vec<u8>>> {
+        self.overlay
+            .value(key)
+            .map(|c| c.as_option().map(|v| v.to_vec()))
+    }
+}
+
 impl<T: HashAlgorithm> Session<T> {
     /// Get a merkle proof for the given key path.
     ///
